@@ -13,9 +13,9 @@ import (
 
 func init() {
 	register(&PropSpec{
-		ID: "C17",
+		ID:          "C17",
 		Explanation: "Structural necessary conditions for negotiation parameters. N1: every field of transport.NegotiationParams has a unique non-empty JSON key; every integer or *int field carries ',string' (the carriers are string→string maps); for every bool field UnmarshalKeyValues has a branch for exactly that key accepting only \"true\"/\"false\". N2: Validate accepts exactly the documented encodings and compression types and tests level against [0,9] and window bits against [0,32]. N3: compress.Config.Type() and the type switch of CompressConfig are mutually inverse; on the enabled path Level and WindowBits of the result are taken from the parameters whenever they are present (guarded by the nil test only), and DisableContextTakeover from the named type. N4: the binary reader checks empty key, UTF-8 validity of the key bytes and of the value bytes (each on its own buffer) and duplicates before inserting; the URL reader rejects empty and multi-valued keys. N5: the binary writer length-prefixes key and value with the width the reader uses.",
-		NotDecided: []string{"round trip on values over the full grid", "arbitrary byte strings (fuzzing)"},
+		NotDecided:  []string{"round trip on values over the full grid", "arbitrary byte strings (fuzzing)"},
 		Rules: func(r *Run) {
 			ruleC17N1(r)
 			ruleC17N2(r)
